@@ -586,6 +586,12 @@ func eventSeen(peer, kind, sub string) bool {
 	evStore.mu.Lock()
 	defer evStore.mu.Unlock()
 	for _, e := range evStore.ev {
+		if strings.HasPrefix(kind, "point.") {
+			if e.Kind == kind && len(e.Args) > 0 && e.Args[0] == sub {
+				return true
+			}
+			continue
+		}
 		if e.Kind == kind && len(e.Args) > 0 && e.Args[0] == peer {
 			if sub == "" || strings.Contains(strings.Join(e.Args, " "), sub) {
 				return true
